@@ -72,6 +72,11 @@ def enumerate_faults(h5: h5py.File):
             for sub in node:
                 klass = "optional" if sub in ("Color map", "Value map") else "other"
                 yield ("link", tpath, sub, klass, ("type", tname, uid))
+                if sub in ("Color map", "Value map"):
+                    # labels stored on the map itself (e.g. the colour map's "File name") are not part of the
+                    # documented format: optional attributes of the type
+                    for attr in node[sub].attrs:
+                        yield ("attr", f"{tpath}/{sub}", attr, "optional", ("type", tname, uid))
     for cname in CONTAINERS:
         for uid in proj[cname]:
             epath = f"{proj_name}/{cname}/{uid}"
